@@ -246,6 +246,15 @@ func permitted(r *orec, i *oiface) bool {
 	return true
 }
 
+// staleSig: the recorded finding a deviation on this key belongs to, if the key was written behind the
+// interface's cache (PutMany / Purge bypass the read cache and the delayed write set).
+func staleSig(i *oiface, key string) string {
+	if why := i.staleKeys[key]; why != "" && i.cache != "n" {
+		return "C02:cache-not-invalidated-by-" + why
+	}
+	return ""
+}
+
 func (o *Oracle) add(idx int, sig, what string) {
 	o.V = append(o.V, OViol{idx, sig, what})
 }
@@ -524,13 +533,23 @@ func (o *Oracle) checkRec(idx int, i *oiface, what, tok string, r *orec, key str
 		o.add(idx, "C02:malformed-output:"+what, tok)
 		return
 	}
+	if i.judgeable && staleSig(i, key) != "" && (m[4] != b01(r.secret) || m[5] != b01(r.crown) || (m[2] != r.expires && !(r.rel > 0 && m[2] == fmt.Sprintf("@+%d", r.rel)))) {
+		o.add(idx, staleSig(i, key), fmt.Sprintf("key %s: metadata %s differs from the most recently stored", key, meta))
+		return
+	}
 	if i.judgeable {
 		wantS, wantJ := b01(r.secret), b01(r.crown)
 		if m[4] != wantS || m[5] != wantJ {
 			o.add(idx, "C02:wrong-flags:"+what, fmt.Sprintf("key %s: flags %s,%s want %s,%s", key, m[4], m[5], wantS, wantJ))
 		}
 		if m[2] != r.expires {
-			o.add(idx, "C02:wrong-expiry:"+what, fmt.Sprintf("key %s: expires %s, most recently stored %s", key, m[2], r.expires))
+			// a pending relative expiry materialises "whenever the record is saved"; a flush of the delayed
+			// write set is such a save: both readings are accepted
+			if r.rel > 0 && m[2] == fmt.Sprintf("@+%d", r.rel) {
+				r.expires = m[2]
+			} else {
+				o.add(idx, "C02:wrong-expiry:"+what, fmt.Sprintf("key %s: expires %s, most recently stored %s", key, m[2], r.expires))
+			}
 		}
 		wantD := "0"
 		if r.rel > 0 {
@@ -731,6 +750,7 @@ func (o *Oracle) Step(idx int, line, out string) {
 			// the interface modified its stale cached copy and wrote it back: from here on the stored
 			// record is that copy; the oracle can no longer follow the key.
 			delete(o.recs, key)
+			o.unjudged[key] = true
 			o.Skips["stale-copy-written-back"]++
 			o.add(idx, "C02:cache-not-invalidated-by-"+why, fmt.Sprintf("key %s: %s worked on the cached copy", key, f[0]))
 			return
@@ -934,6 +954,11 @@ func (o *Oracle) stepQuery(idx int, i *oiface, f []string, out string) {
 	if f[0] == "purge" {
 		if !open && n != len(want) {
 			sig := "C02:purge-count:" + o.Backend
+			for k := range i.staleKeys {
+				if strings.HasPrefix(k, pfx) && staleSig(i, k) != "" {
+					sig = staleSig(i, k)
+				}
+			}
 			o.add(idx, sig, fmt.Sprintf("purge of prefix %q cond %s deleted %d records, %d visible records match", pfx, cond, n, len(want)))
 		}
 		if !open {
@@ -982,7 +1007,9 @@ func (o *Oracle) stepQuery(idx int, i *oiface, f []string, out string) {
 		t, ok := got[w.key]
 		if !ok {
 			sig := "C02:query-misses-record:" + o.Backend
-			if subLevelStruct {
+			if ss := staleSig(i, w.key); ss != "" {
+				sig = ss
+			} else if subLevelStruct {
 				sig = "C02:struct-accessor-sublevel-selector"
 			}
 			o.add(idx, sig, fmt.Sprintf("prefix %q cond %s: visible matching record %s not returned", pfx, cond, w.key))
@@ -993,7 +1020,9 @@ func (o *Oracle) stepQuery(idx int, i *oiface, f []string, out string) {
 	}
 	for k := range got {
 		sig := "C02:query-returns-extra-record:" + o.Backend
-		if !strings.HasPrefix(k, pfx) {
+		if ss := staleSig(i, k); ss != "" {
+			sig = ss
+		} else if !strings.HasPrefix(k, pfx) {
 			sig = "C02:query-returned-key-outside-prefix:" + o.Backend
 		} else if subLevelStruct {
 			sig = "C02:struct-accessor-sublevel-selector"
